@@ -95,7 +95,10 @@ fn value(u: &mut Unstructured<'_>, depth: u32) -> arbitrary::Result<c03::V> {
         12 => V::F64(u.arbitrary()?),
         13 => V::Char(u.arbitrary()?),
         14 | 15 => V::Str(String::arbitrary_lossy(u)?),
-        16 => V::Bytes(u.arbitrary::<Vec<u8>>()?.into_iter().take(8).collect()),
+        16 => {
+            let cap = *u.choose(&[8usize, 8, 40, 300])?;
+            V::Bytes(u.arbitrary::<Vec<u8>>()?.into_iter().take(cap).collect())
+        }
         17 => V::None,
         18 => V::Unit,
         19 => V::UnitStruct,
